@@ -230,6 +230,8 @@ pub fn completion_key(v: &V) -> String {
         V::Os(b) => String::from_utf8_lossy(b).into_owned(),
         V::Num(n) => n.to_string(),
         V::Opt(Some(v)) => completion_key(v),
+        // a completer on top of many/some: the word being typed is the last one collected
+        V::List(xs) => xs.last().map(completion_key).unwrap_or_default(),
         _ => String::new(),
     }
 }
